@@ -65,4 +65,7 @@ enum { FR_CL = 0, FR_CHUNKED, FR_CLOSE };
  * size line; trailer: add one trailer field */
 void gx_chunked(hx_buf *out, const uint8_t *body, size_t n, const int *sizes, int nsizes, int ext, int trailer);
 
+/* zlib encoders: mode 0 gzip, 1 zlib-wrapped deflate, 2 raw deflate */
+void gx_deflate(hx_buf *out, const uint8_t *data, size_t n, int mode);
+
 #endif
